@@ -44,17 +44,21 @@ pub fn apq(args: &Value) -> Outcome {
                     "pad" => format!("{}0", full), "flip" => { let mut b = full.into_bytes(); let l = b.len() - 1; b[l] = if b[l] == b'0' { b'1' } else { b'0' }; String::from_utf8(b).unwrap() }, _ => full }) }
             v => Some(hex_sha(DOCS[v.as_u64().unwrap() as usize].0)) };
         let mut req = Request::new(q.map(|x| DOCS[x].0).unwrap_or(""));
-        if let Some(h) = &hash { req.extensions.insert("persistedQuery".to_string(), value!({"version": ver, "sha256Hash": h.clone()})); }
+        // payload shapes: the well-formed object, or a malformed one (bare hash string / null / number / list / object without hash): malformed => rejected
+        let shape = op["shape"].as_str().unwrap_or("object");
+        if let Some(h) = &hash { req.extensions.insert("persistedQuery".to_string(), match shape {
+            "string" => value!(h.clone()), "null" => value!(null), "number" => value!(1), "list" => value!([h.clone()]), "nohash" => value!({"version": ver}), "hashnum" => value!({"version": ver, "sha256Hash": 5}),
+            _ => value!({"version": ver, "sha256Hash": h.clone()}) }); }
         let resp = schema.execute(req).now_or_never().unwrap();
         let data = resp.data.clone().into_json().unwrap().to_string();
         // reference
-        let exp: Option<String> = match (&hash, q) {
+        let exp: Option<String> = if hash.is_some() && shape != "object" { None } else { match (&hash, q) {
             (None, Some(x)) => Some(DOCS[x].1.to_string()),
             (None, None) => None,
             (Some(_), _) if ver != 1 => None,
             (Some(h), None) => registered.get(h).map(|x| DOCS[*x].1.to_string()),
             (Some(h), Some(x)) => if *h == hex_sha(DOCS[x].0) { registered.insert(h.clone(), x); Some(DOCS[x].1.to_string()) } else { None },
-        };
+        } };
         match exp { Some(e) => if !resp.errors.is_empty() || data != e { bad.push(format!("op#{}: data {} errors {:?}, expected {}", i, data, resp.errors.iter().map(|e| e.message.clone()).collect::<Vec<_>>(), e)); },
                     None => if resp.errors.is_empty() { bad.push(format!("op#{}: executed (data {}) but must be rejected", i, data)); } }
     }
@@ -72,13 +76,16 @@ pub fn inputs(seed: u64) -> impl Iterator<Item = Value> {
         json!({"ops": [{"q": 2, "h": {"of": 2, "m": "prefix63"}}, {"q": null, "h": 2}, {"q": 2, "h": {"of": 2, "m": "pad"}}, {"q": null, "h": 2}]}),
         json!({"ops": [{"q": 3, "h": {"of": 3, "m": "upper"}}, {"q": null, "h": 3}, {"q": 3, "h": {"of": 3, "m": "flip"}}, {"q": null, "h": 3}]}),
         json!({"ops": [{"q": 0, "h": 0}, {"q": null, "h": {"of": 0, "m": "prefix"}}, {"q": null, "h": {"of": 0, "m": "pad"}}, {"q": 1, "h": 0}, {"q": null, "h": 0}]}),
+        json!({"ops": [{"q": 1, "h": 0, "shape": "string"}, {"q": null, "h": 0}, {"q": 0, "h": 0, "shape": "list"}, {"q": null, "h": 0}]}),
+        json!({"ops": [{"q": 0, "h": 0, "shape": "null"}, {"q": null, "h": 0}, {"q": 0, "h": 0, "shape": "number"}, {"q": 0, "h": 0, "shape": "nohash"}, {"q": 0, "h": 0, "shape": "hashnum"}, {"q": null, "h": 0}]}),
+        json!({"ops": [{"q": 0, "h": 0, "ver": 2}, {"q": null, "h": 0, "ver": 1}, {"q": 1, "h": 1, "ver": 0}, {"q": null, "h": 1}, {"q": 2, "h": 2, "ver": -1}, {"q": null, "h": 2}]}),
         json!({"ops": [{"q": 2, "h": 2}, {"q": 3, "h": 3}, {"q": null, "h": 2}, {"q": null, "h": 3}, {"q": 1, "h": null}]}),
     ];
     let mut r = Rng(seed);
     for _ in 0..40 {
         let n = 2 + r.below(7);
         let ops: Vec<Value> = (0..n).map(|_| { let q = if r.below(2) == 0 { Value::Null } else { json!(r.below(4)) };
-            let h = match r.below(8) { 0 => Value::Null, 1 => json!("bad"), 2 => { let m = ["empty", "prefix", "prefix63", "upper", "pad", "flip"][r.below(6) as usize]; json!({"of": r.below(4), "m": m}) }, _ => json!(r.below(4)) }; json!({"q": q, "h": h, "ver": if r.below(8) == 0 { 2 } else { 1 }}) }).collect();
+            let h = match r.below(8) { 0 => Value::Null, 1 => json!("bad"), 2 => { let m = ["empty", "prefix", "prefix63", "upper", "pad", "flip"][r.below(6) as usize]; json!({"of": r.below(4), "m": m}) }, _ => json!(r.below(4)) }; json!({"q": q, "h": h, "ver": if r.below(8) == 0 { 2 } else { 1 }, "shape": if r.below(9) == 0 { ["string", "null", "list", "nohash"][r.below(4) as usize] } else { "object" }}) }).collect();
         out.push(json!({"ops": ops}));
     }
     out.into_iter()
